@@ -118,8 +118,22 @@ def run(ctx, chk):
                     l, truth = ev[1], ev[2]
                     if 'maxChars0' not in repr(l):
                         continue
-                    if truth:
-                        cur = {'l': l, 'stores': [], 'loc': ev[3]}
+                    # what the taken edge establishes, as `est <= 0`; the capacity suffices when maxChars enters negatively
+                    # (so `a + n <= m`, `m - a >= n` and `!(a + n > m)` are the same check)
+                    est = l if truth else (l.scale(-1) + Lin.const(1))
+                    coef = sum(v for k, v in est.t.items() if 'maxChars0' in k)
+                    if all('maxChars0' in k for k in est.t) and ((coef > 0 and est.c == 0) or (coef < 0 and est.c == 1)):
+                        # the test `capacity >= 1` on the capacity alone (`maxChars < 1`): its "capacity >= 1" edge opens the first
+                        # region, which only resets dest[0]; that region is excluded from the append accounting
+                        if coef < 0:
+                            fail = True
+                            cur = None
+                        else:
+                            cur = {'l': est, 'stores': [], 'loc': ev[3]}
+                            groups.append(cur)
+                        continue
+                    if coef < 0:
+                        cur = {'l': est, 'stores': [], 'loc': ev[3]}
                         groups.append(cur)
                     else:
                         fail = True
